@@ -1,0 +1,8 @@
+//go:build verif
+
+// Contracts for the gowp verifier (/verif): comment-only file, compiled only with -tags verif.
+package pac
+
+//@ func (*pac.KerbValidationInfo).GetGroupMembershipSIDs(k) (r)
+//@   pure
+//@   trusted_frame builds a fresh list
